@@ -706,6 +706,21 @@ ElemNumber::getPreviousNode(
 
             pos = next;
 
+            // Only the nodes after the first preceding node that matches
+            // the from pattern are counted, wherever that node is, not
+            // only if it is an ancestor.
+            if(0 != pos &&
+               0 != fromMatchPattern &&
+               fromMatchPattern->getMatchScore(
+                        pos,
+                        *this,
+                        executionContext) != XPath::eMatchScoreNone)
+            {
+                pos = 0; // return 0 from function.
+
+                break; // from while loop
+            }
+
             if(0 != pos &&
                (0 == countMatchPattern ||
                 countMatchPattern->getMatchScore(
